@@ -466,6 +466,7 @@ class C18(Check):
         super().__init__(tier, seed)
         self.kinds = {}
         self.cli_runs = 0
+        self.cli_flags = {}
         self.ncases = 0
         self.events_total = 0
         self.oracle_cases = 0
@@ -482,7 +483,7 @@ class C18(Check):
         for i in range(n):
             c = gen_case(self.rng)
             if i < ncli:
-                c[2] = {"cli": True}
+                c[2] = {"cli": True, "v": self.rng.choice(["", "", "-v", "-v", "-vv", "-q"])}
             out.append(c)
         for _ in range(n // 6):
             out.append(gen_case(self.rng, malformed=True))
@@ -587,25 +588,31 @@ class C18(Check):
             logging.disable(saved[3])
         ans = ["Ok", sorted(records), closing, counts, None]
         if opt.get("cli"):
-            ans[4] = self.run_cli(root, strip)
+            ans[4] = self.run_cli(root, strip, opt.get("v", ""))
         return ans
 
-    def run_cli(self, root, strip):
+    def run_cli(self, root, strip, flag=""):
+        """The command line, at the terminal verbosity `flag` ("", -q, -v, -vv): cbi.log, the closing lines on
+        stdout, and the warnings that reach the terminal before them."""
         self.cli_runs += 1
+        self.cli_flags[flag or "default"] = self.cli_flags.get(flag or "default", 0) + 1
         env = dict(os.environ, PYTHONPATH=str(common.REPO), PYTHONHASHSEED="0")
-        pr = subprocess.run([sys.executable, "-W", "ignore", "-m", "codebasin", "-R", "summary", "an.toml"], cwd=root, env=env,
-                            capture_output=True, text=True, timeout=120)
+        pr = subprocess.run([sys.executable, "-W", "ignore", "-m", "codebasin"] + ([flag] if flag else []) + ["-R", "summary", "an.toml"],
+                            cwd=root, env=env, capture_output=True, text=True, timeout=120)
         if pr.returncode != 0:
             return ["Err", pr.returncode]
+
+        def split_closing(recs):
+            k = len(recs)
+            while k > 0 and any(rx.match(recs[k - 1]) for rx in TOT_RE):
+                k -= 1
+            return recs[:k], recs[k:]
         log = (root / "cbi.log").read_text()
-        lrecs = [strip(m) for lv, m in split_log(log) if lv == "warning"]
+        body, tail = split_closing([strip(m) for lv, m in split_log(log) if lv == "warning"])
         out = pr.stdout
         out = out[:out.index("\nSummary\n")] if "\nSummary\n" in out else out
-        printed = [strip(m) for lv, m in split_log(out) if lv == "warning"]
-        nclosing = len(printed)
-        body = lrecs[:len(lrecs) - nclosing] if nclosing else lrecs
-        tail = lrecs[len(lrecs) - nclosing:] if nclosing else []
-        return ["Ok", sorted(body), printed, tail]
+        term, printed = split_closing([strip(m) for lv, m in split_log(out) if lv == "warning"])
+        return ["Ok", sorted(body), printed, tail, sorted(term)]
 
     # ---- views ----
     def _kind(self, e):
@@ -619,7 +626,8 @@ class C18(Check):
         recs = sorted(m[1] + m[2] + m[3])
         cli = None
         if case[2].get("cli"):
-            cli = ["Ok", recs, m[4], m[4]]
+            # the totals do not depend on the terminal verbosity; with -v / -vv every warning also reaches the terminal (once)
+            cli = ["Ok", recs, m[4], m[4], recs if case[2].get("v", "") in ("-v", "-vv") else []]
         return ["Ok", recs, m[4], m[5], cli]
 
     def impl_view_for_model(self, case, ia):
@@ -821,7 +829,7 @@ class C18(Check):
     def extra_coverage(self):
         return {"spec_oracle_cases": self.oracle_cases, "spec_oracle_disagreements": len(self.oracle_bad),
                 "spec_oracle_diagnosed_or_out_of_domain": self.oracle_skipped,
-                "event_kinds_observed": self.kinds, "input_distribution": self.hist, "cli_runs": self.cli_runs,
+                "event_kinds_observed": self.kinds, "input_distribution": self.hist, "cli_runs": self.cli_runs, "cli_runs_by_verbosity_flag": self.cli_flags,
                 "mean_events_per_case": round(self.events_total / max(1, self.ncases), 2)}
 
 
